@@ -21,7 +21,7 @@ checks = {
  "C09": ("exploration", "seeded search over histories on pre-populated overlays, refinement check against the union model", "7/C09",
          "Model initialised with the upper-shadows-lower union of generated type-consistent layer contents (1-4 layers, same path in several layers with different bytes), then C01's oracle with a mix biased to create-over-lower, remove-with-lower-children, append-to-lower."),
  "C10": ("exploration", "removal/re-creation cycle workload with tombstone, freshness and marker-hygiene monitors", "7/C10",
-         "1-4 cycles of removals (file, empty dir, remove_dir_all of lower subtrees), unrelated operations and re-creation with same/other type on 2-4 layer overlays; after every later step removed paths and former descendants are invisible to all six observers, re-created entries hold only new content, no listing/walk yields a bookkeeping name."),
+         "1-4 cycles of removals (file, empty dir, remove_dir_all of lower subtrees), unrelated operations and re-creation with same/other type on 2-4 layer overlays; after every later step removed paths and former descendants are invisible to all six observers, re-created entries hold only new content, no listing/walk yields a bookkeeping name. In a third of the runs one re-creation is made to fail by an injected I/O error of an underlying call (a failed re-creation re-creates nothing), and part of the runs are replayed, with the same failure and seeded Pending injection, through the async overlay."),
  "C11": ("exploration", "seeded search over source trees and ordered filesystem pairs, refinement check against a two-filesystem model", "7/C11",
          "copy/move/copy_dir/move_dir/create_dir_all/remove_dir_all between same instance (fast paths), two instances of one backend and two different stacks; return values, both filesystems' full snapshots and refusal of existing destinations without side effects."),
  "C12": ("exploration", "error monitor over failing calls with disjoint inner/outer name pools", "7/C12",
@@ -35,7 +35,7 @@ checks = {
  "C16": ("exploration", "controlled thread scheduler at lock-acquisition granularity (hooked RwLock), linearizability against sequential runs of the real code", "7/C16",
          "Small programs (2-3 threads, <= 9 API calls: create_dir, create_file/append sessions as open+write+drop, remove_file, remove_dir, exists, metadata, read_dir, open+read on <= 4 overlapping paths, optional initial content) run on real threads under a baton scheduler that decides which thread passes each MemoryFS lock acquisition (seeded uniform and PCT depth 1-3, 60 schedules per program); the concurrent per-call results and final snapshot must equal those of some program-order-respecting sequential order, all of which are executed on a fresh MemoryFS; panics, deadlock (all threads blocked) and livelock (> 20000 decisions) are violations."),
  "C17": ("exploration", "controlled thread scheduler at lock (MemoryFS) and trait-call (SimFS boundary) granularity over concurrent create_dir_all programs", "7/C17",
-         "2-4 threads each calling create_dir_all (sometimes twice) on paths of depth 1-4 that share prefixes of every length, optional pre-existing prefixes, on Mem, Altroot(Mem), Overlay(Mem..) at lock granularity and PhysicalFS / Altroot(Phys) / Overlay(Phys,Mem) at trait-call granularity (each call is one syscall; the scheduler serialises them, so runs replay); every call must return Ok and afterwards every requested path and ancestor is a directory."),
+         "2-4 threads each calling create_dir_all (sometimes twice) on paths of depth 1-4 that share prefixes of every length, optional pre-existing prefixes, on Mem, Altroot(Mem), Overlay(Mem..) at lock granularity (writer-preferring lock model: a nested read acquisition behind a waiting writer is a deadlock) and PhysicalFS / Altroot(Phys) / Overlay(Phys,Mem) at trait-call and syscall granularity (vsim defines mkdir/rmdir/unlink/rename itself, yields to the scheduler and forwards to the real function, so the scheduler serialises the syscalls and runs replay); every call must return Ok and afterwards every requested path and ancestor is a directory."),
  "C19": ("exploration", "time-mode histories with a shadow metadata oracle (no wall clock in any comparison)", "7/C19",
          "Three setters in all orders on files and directories with epoch/negative/sub-second/far values, interleaved with write sessions; metadata read immediately before/after: exact value, other fields/len/type/bytes unchanged, NotSupported or any error changes nothing, creation time survives appends on memory, adapters report the serving entry's timestamps."),
  "C20": ("fault_enumeration", "per-operation exhaustive enumeration of the failing underlying call inside seeded histories", "7/C20",
@@ -57,7 +57,7 @@ notes = {
  "C14": "Seeks on append handles are compared on all-memory stacks only; offsets beyond +-2^40 are left to C13 (OS limits differ from Cursor).",
  "C15": "Own single-threaded executor (futures::executor::block_on would make AsyncWritableFile::drop's nested block_on panic - executor choice is outside the statement). Timestamps and seeking write handles (absent in the async API) excluded. AsyncPhysicalFS completes on async-std's blocking pool: outcomes are compared, poll counts on that backend are not. One known finding (async-std File after a zero-length read).",
  "C16": "Linearizability is judged at API-call granularity with the real code as its own sequential specification (a write session is open, private writes, publish at drop). Failed calls are compared as 'failed' without the error kind. Needs the guarded hook (feature verif-hooks) in MemoryFS's lock.",
- "C17": "PhysicalFS interleavings are at trait-call granularity (kernel-atomic syscalls serialised by the scheduler), not inside the kernel.",
+ "C17": "PhysicalFS interleavings are at the granularity of the library's mutating syscalls (kernel-atomic, serialised by the scheduler), not inside the kernel; read-only syscalls (stat, open for reading) are not scheduling points of their own.",
  "C19": "OverlayFS set_*_time on a lower-only entry fails not-found and changes nothing: accepted by the statement's letter.",
  "C20": "Injected kinds are I/O-class only (never NotFound/AlreadyExists/NotSupported: code that believes such an answer is not wrong). After a reported error any partial state is accepted.",
 }
